@@ -70,34 +70,75 @@ Example refuted_ttl_reorder :
            (VInt 1, VDoc [("_id", VInt 1); ("u", VInt 1)])]).
 Proof. vm_compute. split; reflexivity. Qed.
 
-(* 3. no rollback on a non-duplicate error of the unique check: replace_one stores the new
-      image {a: {$foo: 1}}, the unique check queries {a: {$foo: 1}}, the matcher rejects the
-      operator (OperationFailure) and the new image stays.  No TTL index.  Bit 4. *)
+(* 3. WAS a counterexample (F-UPDATE-NO-ROLLBACK, former meaning of bit 4): replace_one stores
+      the new image {a: {$foo: 1}}, the unique check queries {a: {$foo: 1}}, the matcher
+      rejects the operator (OperationFailure).  The library used to roll back on
+      DuplicateKeyError only, and the new image stayed.  It now rolls back on every exception
+      of the unique check: the history is handled correctly and is inside the guard. *)
 Definition ops_norollback_value : list op :=
   [ OInsertOne (VDoc [("_id", VInt 1); ("a", VInt 1)]);
     OCreateIndex [("a", VInt 1)] true false None None None;
     OReplace (VDoc [("_id", VInt 1)]) (VDoc [("a", VDoc [("$foo", VInt 1)])]) false ].
-Example refuted_norollback_value :
-  verdict ops_norollback_value = (false, 0, 4) /\
+Example norollback_value_now_holds :
+  verdict ops_norollback_value = (true, 0, 0) /\
   last_step ops_norollback_value =
     Some (Err EOpFail,
           [(VInt 1, VDoc [("_id", VInt 1); ("a", VInt 1)])],
-          [(VInt 1, VDoc [("_id", VInt 1); ("a", VDoc [("$foo", VInt 1)])])]).
+          [(VInt 1, VDoc [("_id", VInt 1); ("a", VInt 1)])]).
 Proof. vm_compute. split; reflexivity. Qed.
 
-(* 4. the same through a partialFilterExpression the matcher rejects: every later update_one
-      that changes a document raises AND is applied.  Bit 4. *)
+(* 4. WAS a counterexample (same finding) through a partialFilterExpression the matcher
+      rejects: every later update_one that changes a document raised AND was applied.  Now
+      rolled back; inside the guard. *)
 Definition ops_norollback_partial : list op :=
   [ OInsertOne (VDoc [("_id", VInt 1); ("a", VInt 1)]);
     OCreateIndex [("a", VInt 1)] true false None
                  (Some (VDoc [("a", VDoc [("$foo", VInt 1)])])) None;
     OUpdate (VDoc [("_id", VInt 1)]) (VDoc [("$set", VDoc [("a", VInt 2)])]) false false ].
-Example refuted_norollback_partial :
-  verdict ops_norollback_partial = (false, 0, 4) /\
+Example norollback_partial_now_holds :
+  verdict ops_norollback_partial = (true, 0, 0) /\
   last_step ops_norollback_partial =
     Some (Err EOpFail,
           [(VInt 1, VDoc [("_id", VInt 1); ("a", VInt 1)])],
-          [(VInt 1, VDoc [("_id", VInt 1); ("a", VInt 2)])]).
+          [(VInt 1, VDoc [("_id", VInt 1); ("a", VInt 1)])]).
+Proof. vm_compute. split; reflexivity. Qed.
+
+(* 4a. the rollback on a non-duplicate error meets the TTL purge exactly like the rollback on
+      DuplicateKeyError (2. above): the new image {a: {$foo: 1}, t: <expired>} is purged by the
+      unique check, whose query is then rejected (OperationFailure); the rollback re-creates
+      the old document at the END: order 1,2 -> 2,1.  Nothing was expired before the call.
+      This is why the second class of bit 2 is no longer restricted to DuplicateKeyError. *)
+Definition ops_ttl_reorder_opfail : list op :=
+  [ OInsertOne (VDoc [("_id", VInt 1); ("a", VInt 1)]);
+    OInsertOne (VDoc [("_id", VInt 2); ("a", VInt 2)]);
+    OCreateIndex [("a", VInt 1)] true false None None None;
+    OCreateIndex [("t", VInt 1)] false false (Some (VInt 10)) None None;
+    OSetClock 100000000;
+    OReplace (VDoc [("_id", VInt 1)])
+             (VDoc [("a", VDoc [("$foo", VInt 1)]); ("t", VDate 0 None)]) false ].
+Example refuted_ttl_reorder_opfail :
+  verdict ops_ttl_reorder_opfail = (false, 0, 2) /\
+  last_step ops_ttl_reorder_opfail =
+    Some (Err EOpFail,
+          [(VInt 1, VDoc [("_id", VInt 1); ("a", VInt 1)]);
+           (VInt 2, VDoc [("_id", VInt 2); ("a", VInt 2)])],
+          [(VInt 2, VDoc [("_id", VInt 2); ("a", VInt 2)]);
+           (VInt 1, VDoc [("_id", VInt 1); ("a", VInt 1)])]).
+Proof. vm_compute. split; reflexivity. Qed.
+
+(* 4b. artefact of the model, not of the library (present meaning of bit 4): the unique check
+      itself leaves the model ($regex is not modelled by the matcher): the model answers
+      EUnmodelled and keeps the new image, its state being meaningless from there on. *)
+Definition ops_unmodelled_check : list op :=
+  [ OInsertOne (VDoc [("_id", VInt 1); ("a", VInt 1)]);
+    OCreateIndex [("a", VInt 1)] true false None None None;
+    OReplace (VDoc [("_id", VInt 1)]) (VDoc [("a", VDoc [("$regex", VStr "x")])]) false ].
+Example refuted_unmodelled_check :
+  verdict ops_unmodelled_check = (false, 0, 4) /\
+  last_step ops_unmodelled_check =
+    Some (Err EUnmodelled,
+          [(VInt 1, VDoc [("_id", VInt 1); ("a", VInt 1)])],
+          [(VInt 1, VDoc [("_id", VInt 1); ("a", VDoc [("$regex", VStr "x")])])]).
 Proof. vm_compute. split; reflexivity. Qed.
 
 (* 5. find_one_and_update(upsert=True, return_document=AFTER) whose update sets _id to an
